@@ -329,7 +329,19 @@ func trackErr(info *types.Info, flow *FlowGraph, def ast.Node, obj types.Object,
 								tv, ok := info.Types[e]
 								return ok && tv.IsNil()
 							}
-							if !isNil(x.X) && !isNil(x.Y) {
+							// (one side has to be the error itself: `evt.ID != col.ID` next to an
+							// `err == nil` in the same condition inspects nothing about err)
+							mentionsErr := func(e ast.Expr) bool {
+								found := false
+								ast.Inspect(e, func(y ast.Node) bool {
+									if id, ok := y.(*ast.Ident); ok && tracked[info.Uses[id]] {
+										found = true
+									}
+									return !found
+								})
+								return found
+							}
+							if !isNil(x.X) && !isNil(x.Y) && (mentionsErr(x.X) || mentionsErr(x.Y)) {
 								handled = true
 							}
 						}
